@@ -416,7 +416,7 @@ theorem facts_guard :
     Gen.Facts.c10StoreCopies = some true ∧ Gen.Facts.c10CopyNoOptDeep = some true ∧ Gen.Facts.c10HitCopies = some true ∧
     Gen.Facts.c10LazyHitCopies = some true ∧ Gen.Facts.c10ItemRespWriters = some 2 ∧ Gen.Facts.c10ExecSetsId = some true ∧
     Gen.Facts.c10LazyUpdateUsesContextCopy = some true ∧ Gen.Facts.c10DumpLoadUnpacksFresh = some true ∧
-    Gen.Facts.c10MissPrivate = some true := by decide
+    Gen.Facts.c10MissPrivate = some true ∧ Gen.Facts.c10HitServesOnlyCopies = some true := by decide
 
 /-! ## non-vacuity -/
 
